@@ -31,6 +31,11 @@
 //
 // answer := <class> <calls|->   (see Driver/CoreBcast.lean)
 //
+// Go's iteration order over the set is not under the driver's control. Where it can be observed — the
+// order in which the objects arrive at the beacon node is the order of the one `range` over the map — the
+// abstract view names it (last field) and the model has to produce the observed answer for THAT order;
+// where it cannot (nothing was handed over), the model has to produce it for some order.
+//
 //go:debug randseednop=0
 package main
 
@@ -1877,16 +1882,33 @@ func (e *episode) execBc(run *hx.Run, o bcOp) {
 	// ---- monitors (on the implementation's own trace; no model involved) -----------------------
 	dutyName := core.DutyType(o.duty).String()
 	nItems := 0
-	for _, c := range calls {
-		for _, it := range c.items {
-			nItems++
-			var m *entry
-			for _, en := range ents {
-				if !en.used && en.content == it.content && string(en.sigB) == string(it.sigBytes) {
-					m = en
-					break
+	var ordV []string // the set keys in the order in which their objects were handed over = Go's iteration order
+	ordKnown := true
+	// which entry of the set does a captured object come from: same content and signature; among several such
+	// entries (the same object filed under two keys) first the ones that also agree on the validator index
+	matched := map[*capItem]*entry{}
+	for _, exact := range []bool{true, false} {
+		for ci := range calls {
+			for ii := range calls[ci].items {
+				it := &calls[ci].items[ii]
+				if matched[it] != nil {
+					continue
+				}
+				for _, en := range ents {
+					if !en.used && en.content == it.content && string(en.sigB) == string(it.sigBytes) && (!exact || eqIdx(en.idx, it.idx)) {
+						matched[it], en.used = en, true
+						break
+					}
 				}
 			}
+		}
+	}
+	for ci := range calls {
+		c := calls[ci]
+		for ii := range c.items {
+			it := c.items[ii]
+			nItems++
+			m := matched[&calls[ci].items[ii]]
 			if m == nil {
 				sameC, sameS, both := false, false, false
 				for _, en := range ents {
@@ -1901,9 +1923,10 @@ func (e *episode) execBc(run *hx.Run, o bcOp) {
 				default:
 					run.Violate("corebcast:submitted_unknown_object", fmt.Sprintf("%s: submitted object has neither the content nor the signature of any entry of the set", dutyName))
 				}
+				ordKnown = false
 				continue
 			}
-			m.used = true
+			ordV = append(ordV, strconv.Itoa(m.v))
 			// endpoint of the entry's type
 			wantEp := epOfKind[m.s.kind]
 			if m.s.kind == kProp {
@@ -2050,8 +2073,11 @@ func (e *episode) execBc(run *hx.Run, o bcOp) {
 	if o.bn.dutiesErr {
 		ds = "x"
 	}
-	abs := fmt.Sprintf("%d %s %s %s %s %s %s", o.duty, dashIfEmpty(strings.Join(absEnts, ";")), vs, ds, b01(o.bn.domOK),
-		dashIfEmpty(strings.Join(absSub, ",")), dashIfEmpty(strings.Join(facts, ",")))
+	if !ordKnown {
+		ordV = nil
+	}
+	abs := fmt.Sprintf("%d %s %s %s %s %s %s %s", o.duty, dashIfEmpty(strings.Join(absEnts, ";")), vs, ds, b01(o.bn.domOK),
+		dashIfEmpty(strings.Join(absSub, ",")), dashIfEmpty(strings.Join(facts, ",")), dashIfEmpty(strings.Join(ordV, ",")))
 
 	run.Count("duty:" + dutyName)
 	run.Count("class:" + class)
